@@ -343,7 +343,10 @@ def _ref_quantities(pars, zmin, zmax):
             dl_, ds_, dls_ = dm(dcf(0, zmin)) / (1 + zmin), dm(dcf(0, zmax)) / (1 + zmax), dmv / (1 + zmax)
             sc = dls_ * dl_ / ds_ * 6.015050454163015e-07 if ds_ != 0 else float("nan")
         out[tag] = dict(Ez_inverse=einv(zmax), Dc=dcv, Dm=dmv, Da=dmv / (1 + zmax), Dl=dmv * (1 + zmax),
-                        distmod=(5 * math.log10(dm(dcf(0, zmax)) * (1 + zmax) * 1e6 / 10.0) if zmax > 0 else None),
+                        # undefined (not constrained) when the luminosity distance is not positive: a closed model whose
+                        # comoving distance passes the antipode before zmax
+                        distmod=(5 * math.log10(dm(dcf(0, zmax)) * (1 + zmax) * 1e6 / 10.0)
+                                 if zmax > 0 and dm(dcf(0, zmax)) > 0 else None),
                         dV=dv(zmax), V=vol, sigmacritinv=sc)
     return out
 
